@@ -502,8 +502,27 @@ fn gen_call(g: &mut Gen, rng: &mut impl rand::RngCore, allow_proofs: bool, count
                     }
                 }
                 7 if g.messages.len() >= 2 => {
-                    let a = g.messages[rng.gen_range(0..g.messages.len())].0.clone();
-                    let b = g.messages[rng.gen_range(0..g.messages.len())].0.clone();
+                    let mut a = g.messages[rng.gen_range(0..g.messages.len())].0.clone();
+                    let mut b = g.messages[rng.gen_range(0..g.messages.len())].0.clone();
+                    // also: different external nullifiers, alone and together with an input the Rust API refuses
+                    // (truncated, non-canonical field encodings)
+                    match rng.gen_range(0..7) {
+                        0 | 1 => {}
+                        2 => a[160 + rng.gen_range(0..31)] ^= 1,
+                        3 => {
+                            a[160 + rng.gen_range(0..31)] ^= 1;
+                            b.truncate(rng.gen_range(192..288));
+                        }
+                        4 => b[160..192].copy_from_slice(&[0xffu8; 32]),
+                        5 => a.truncate(rng.gen_range(0..288)),
+                        _ => {
+                            a[160 + rng.gen_range(0..31)] ^= 1;
+                            b[128..160].copy_from_slice(&[0xffu8; 32]);
+                        }
+                    }
+                    if rng.gen_bool(0.5) {
+                        std::mem::swap(&mut a, &mut b);
+                    }
                     Call::Recover(a, b)
                 }
                 8 if g.witness.is_some() => {
@@ -602,7 +621,7 @@ pub fn run(rep: &mut Rep, args: &[String]) {
         ];
         script.reverse();
         let mut verify_script_done = false;
-        for k in 0..ncalls + script.len() + 15 {
+        for k in 0..ncalls + script.len() + 21 {
             let count_hint = pair.rust.leaves_set();
             if *depth == 20 && proofs_left > 0 {
                 let req = enc_prove_request(&secret, 3, &Fr::from(10u64), &Fr::from(1u64), &Fr::from(77u64), b"w");
@@ -624,6 +643,19 @@ pub fn run(rep: &mut Rep, args: &[String]) {
                     vs.push(Call::VerifyRoots(req.clone(), rand_bytes(&mut rng, 32)));
                     vs.push(Call::VerifyRoots(req.clone(), rand_bytes(&mut rng, 31)));
                     vs.push(Call::Verify(m.clone()));
+                    if round == 0 {
+                        // secret recovery on pairs the Rust API answers with "nothing recovered" or refuses
+                        let mut other_ext = m.clone();
+                        other_ext[161] ^= 4;
+                        let mut bad_root = m.clone();
+                        bad_root[128..160].copy_from_slice(&[0xffu8; 32]);
+                        vs.push(Call::Recover(m.clone(), m.clone()));
+                        vs.push(Call::Recover(other_ext.clone(), m.clone()));
+                        vs.push(Call::Recover(other_ext.clone(), m[..250].to_vec()));
+                        vs.push(Call::Recover(m[..200].to_vec(), other_ext.clone()));
+                        vs.push(Call::Recover(other_ext.clone(), bad_root));
+                        vs.push(Call::Recover(m[..100].to_vec(), other_ext));
+                    }
                     if round == 0 {
                         vs.push(Call::SetNextLeaf(enc_fr(&rand_fr(&mut rng))));
                     }
